@@ -21,7 +21,11 @@ EXPLANATION = ("Calling-convention and alignment clauses decided on the ASSEMBLE
                "footprint (memcpy/memset length, 64-byte block reads of the compress kernels, 64*outblocks of xof_many, "
                "pointers stored for hash_many, forwarding to another table function) is proved <= the remaining length by a "
                "syntactic <= prover over guard facts, clamp idioms and floor forms; pointer and length move only together. "
-               "Extents of reads/writes inside the SIMD kernels and UB-freedom of C in general are NOT decided; MSVC .asm files cannot "
+               "R1asm1/R1asmH/R1asmX: for every assembly kernel the set of caller-memory accesses is enumerated region by region from "
+               "the lane-precise symbolic evaluation: compress_* read cv[0..32)+block[0..64) and write exactly 32 / 64 bytes; hash_many "
+               "reads key[0..32), inputs[g] and the 64 bytes of each input at the block offset and writes 32 bytes per input in the stage "
+               "epilogues only; xof_many reads cv/block and writes 64 bytes per block. (This rule found the over-read repaired by 33f270a.) "
+               "Extents of reads/writes inside the C/Rust INTRINSICS kernels and UB-freedom of C in general are NOT decided; MSVC .asm files cannot "
                "be assembled here.")
 TRUSTED = ["clang integrated assembler + llvm-objdump 14 disassembly", "engines/asmabi/asmabi.py def/use convention (Intel syntax: first operand is the destination; unknown control flow fails closed)",
            "SysV AMD64 and Microsoft x64 calling conventions as tabulated in r_asm.py", "prototype table from c/blake3_impl.h"]
